@@ -113,10 +113,10 @@ type c16Field struct {
 func c16Apply(e *env) {
 	e.eachCase(func(raw json.RawMessage) {
 		var c struct {
-			Rules [][]string   `json:"rules"`
-			Hdr   []c16Field   `json:"hdr"`
-			Out   []c16Field   `json:"out"`
-			Free  [][]string   `json:"free"`
+			Rules [][]string `json:"rules"`
+			Hdr   []c16Field `json:"hdr"`
+			Out   []c16Field `json:"out"`
+			Free  [][]string `json:"free"`
 		}
 		if err := json.Unmarshal(raw, &c); err != nil {
 			fatal("bad case: %v", err)
